@@ -99,18 +99,18 @@ theorem magic_cap (l target : Int) :
 
 /-- the Magic interior is drawn only when the capped ACS leaves budget: otherwise `adjusted = 0` and
 `rng.randint(0, high=0)` raises (`ValueError: high <= 0`) -/
-theorem magic_adjusted_zero_iff (n : Nat) (target l : Int) (hn : 0 < n) (ht : target - l ≤ (n : Int) + n) :
+theorem magic_adjusted_zero_iff (n : Nat) (target l : Int) (ht : target - l ≤ (n : Int)) :
     magicAdjusted n target l = 0 ↔ target - l ≤ 0 := by
   unfold magicAdjusted
   constructor
   · intro h
     by_cases hp : target - l > 0
     · rw [if_pos hp] at h
-      exact absurd h (roundDiv_pos n (target - l).toNat hn (by omega) (by omega))
+      exact absurd h (roundDiv_pos n (target - l).toNat (by omega) (by omega))
     · omega
   · intro h
     have : ¬ (target - l > 0) := by omega
-    simp [this]
+    rw [if_neg this]
 
 /-- Random / Equispaced glue -/
 theorem num_low_freqs_cases (r c : Int) : numLowFreqs true r c = r ∧ numLowFreqs false r c = c := by
@@ -151,9 +151,12 @@ theorem disc_contains_centre (rows cols : Nat) (radius : Int) (h : 1 ≤ radius)
 
 /-- radius zero (centre fraction below `π / (rows · cols)`): the disc is empty -/
 theorem disc_empty_of_radius_zero (rows cols : Nat) (x y : Nat) : inDisk rows cols 0 x y = false := by
-  unfold inDisk sq
-  simp only [Int.mul_zero, decide_eq_false_iff_not, Int.not_lt]
-  exact Int.add_nonneg (Int.mul_self_nonneg _) (Int.mul_self_nonneg _)
+  unfold inDisk
+  have h1 := sq_nonneg ((x : Int) - ((rows / 2 : Nat) : Int))
+  have h2 := sq_nonneg ((y : Int) - ((cols / 2 : Nat) : Int))
+  have h3 : sq 0 = 0 := rfl
+  simp only [h3, decide_eq_false_iff_not, Int.not_lt]
+  omega
 
 /-- CIRCUS without centre fraction: what the disc search returns is `disc ∩ mask` for one of the
 radii, hence a subset of the mask -/
@@ -181,7 +184,7 @@ theorem acs_subset_mask (g : Gen) (m : Mode) (shape : List Nat) (spec : AcsSpec)
     (hlen : ∀ p ∈ interior, p.length = patLen g.family (rowsOf shape) (colsOf shape))
     (ta tm : Tensor Bool) (ha : assemble g m shape spec true interior = .ok ta)
     (hm : assemble g m shape spec false interior = .ok tm) :
-    ta.shape = tm.shape ∧ ∀ i, ta.data[i]? = some true → tm.data[i]? = some true :=
+    ta.shape = tm.shape ∧ ∀ i : Nat, ta.data[i]? = some true → tm.data[i]? = some true :=
   assemble_acs_subset g m shape spec interior hlen ta tm ha hm
 
 /-! ## non-vacuity / regression examples -/
